@@ -215,11 +215,20 @@ def find(
             # Process include files.
             # These modify the file_platform instance, but we throw away
             # the active nodes after processing is complete.
+            # A compiler looks for them in its working directory (which
+            # load_database has done already) and then along the include
+            # paths; the directory of the source file is tried last.
             for include in e["include_files"]:
                 include_file = file_platform.find_include_file(
                     include,
                     os.path.dirname(e["file"]),
+                    is_system_include=True,
                 )
+                if not include_file:
+                    include_file = file_platform.find_include_file(
+                        include,
+                        os.path.dirname(e["file"]),
+                    )
                 if not include_file:
                     log.warning(
                         f"{e['file']}: file '{include}' named by -include "
